@@ -56,7 +56,7 @@ def gen_scenario(rng, ident):
             chunks.insert(pos, "G"); pos += 1
         chunks.insert(pos, tok)
         kinds.append(kind)
-    head = ["N:%d" % rng.choice(DELAYS), "F"] + ["C:%d" % k for k in range(nc)] + ["X"]
+    head = ["N:%d" % rng.choice(DELAYS), "F"] + ["C:%d:%d" % (k, rng.randrange(4)) for k in range(nc)] + ["X"]
     return "sys %s " % ident + " ".join(head + chunks), kinds
 
 
@@ -83,7 +83,7 @@ def cut_grid(reps, quick):
                                     continue
                                 k = 1 + (rep + cmd) % 2
                                 ident = "cut-%s-f%d-m%d-c%d-k%d-a%d-r%d" % ("snap" if snap else "nosnap", fill, mode, cmd, cut, apply_delay, rep)
-                                steps = ["N:0", "F", "C:0", "C:1", "C:2", "X", "M:0:2", "M:1:2"] + (["S"] if snap else [])
+                                steps = ["N:0", "F", "C:0:%d" % (cmd % 4), "C:1:%d" % ((cmd + 1) % 4), "C:2:%d" % ((cmd + 2) % 4), "X", "M:0:2", "M:1:2"] + (["S"] if snap else [])
                                 if fill:
                                     steps.append("R:%d:none:0:0" % fill)
                                 steps += ["CB:%d:%d:%d:%d:%d" % (k, cmd, cut, mode, apply_delay), "M:%d:2" % ((k + 1) % 3), "R:2:none:0:0"]
@@ -177,6 +177,10 @@ def monitor(r):
                 bad.append(("acked-session-lost", "session of client %d was created with HTTP 200 and later refused: %s" % (c["k"], d[:300])))
             else:
                 harness.append("client %d stopped: %s" % (c["k"], d[:600]))
+    for c in cl:
+        if c.get("final_pong_missing"):
+            bad.append(("live-reader-stalled", "client %d (client message id scheme %s): a PING it posted was acknowledged with HTTP 200 but the PONG was never delivered "
+                        "to it (live reader 15 s / fetch 30 s) — an acknowledged post without effect (%s)" % (c["k"], c.get("cmid_scheme"), (c.get("live_errors") or [])[:3])))
     readers = [c for c in cl if c["joined"] and c["full_fetched"]]
     for rd in readers:
         stream = [tuple(x) for x in rd["full"]]
@@ -297,7 +301,7 @@ def ri_grid(reps, quick):
                                           or (snap and fill == 10 and apply_delay and mode == 1)):
                             continue
                         ident = "d14-%s-f%d-m%d-a%d-r%d" % ("snap" if snap else "nosnap", fill, mode, apply_delay, rep)
-                        steps = ["N:0", "F", "C:0", "C:1", "C:2", "M:0:2", "M:1:2"] + (["S"] if snap else [])
+                        steps = ["N:0", "F", "C:0:%d" % mode, "C:1:%d" % (mode + 1), "C:2:%d" % ((mode + 2) % 4), "M:0:2", "M:1:2"] + (["S"] if snap else [])
                         if fill:
                             steps.append("R:%d:none:0:0" % fill)
                         steps += ["RI:%d:%d:%d" % (rep % 3, mode, apply_delay), "M:%d:2" % ((rep + 1) % 3)]
@@ -439,7 +443,7 @@ def run(ck, replay):
             for k in kinds:
                 kinds_gen[k] = kinds_gen.get(k, 0) + 1
     t0 = time.time()
-    res, out, strays = run_sysdrv(lines, "c05", 8, timeout=420 if quick else 3300)
+    res, out, strays = run_sysdrv(lines, "c05", 8, timeout=1200 if quick else 3300)
     ck.notes["go_wall_s"] = round(time.time() - t0, 1)
     ck.notes["stray_children_killed"] = strays
     if res is None:
@@ -451,7 +455,7 @@ def run(ck, replay):
         return
 
     dist = {"scenarios": len(lines), "clients": 0, "posts": 0, "acked_posts": 0, "retried_posts": 0, "answers_dropped": 0, "node_starts": 0,
-            "snapshots_on_disk": 0, "incremental_fetches": 0, "retry_refused_while_replaying": 0, "live_readers": 0, "live_reader_connects": 0, "live_reader_messages": 0, "live_reader_messages_all_kinds": 0, "cuts_inside_batch": {}, "faults_generated": kinds_gen, "steps_executed": {}, "failed_attempts": {}}
+            "snapshots_on_disk": 0, "incremental_fetches": 0, "retry_refused_while_replaying": 0, "live_readers": 0, "live_reader_connects": 0, "live_reader_messages": 0, "live_reader_messages_all_kinds": 0, "cuts_inside_batch": {}, "cmid_schemes": {}, "faults_generated": kinds_gen, "steps_executed": {}, "failed_attempts": {}}
     nontriv, checks_total, seen_sig, harness_all = set(), 0, set(), []
     samples = []
     for line, r in zip(lines, res):
@@ -460,6 +464,8 @@ def run(ck, replay):
         retried = 0
         for c in r["clients"]:
             dist["clients"] += 1
+            sk = "scheme%d" % c.get("cmid_scheme", 0)
+            dist["cmid_schemes"][sk] = dist["cmid_schemes"].get(sk, 0) + 1
             dist["incremental_fetches"] += c["fetches"]
             dist["live_readers"] += int(bool(c.get("live_reader")))
             dist["live_reader_connects"] += c.get("live_connects", 0)
@@ -511,7 +517,8 @@ def run(ck, replay):
     ck.cov["disagreements_checked"] = checks_total
     ck.cov["monitor_checks"] = checks_total
     ck.cov["rule"] = ("scenarios of 2-4 scripted clients on one real node (child process: raft + LevelDB log/stable store + file snapshot store + real FSM + real HTTP "
-                      "handlers): create session, NICK/USER/JOIN, 5-30 numbered PRIVMSGs each with increasing client message ids, every POST repeated with the same id until "
+                      "handlers): create session, NICK/USER/JOIN, 5-30 numbered PRIVMSGs each with increasing client message ids (per client one of four id ranges, consecutive ids "
+                      "differing by 1: small numbers, top bit set (2^63+2^62..), across 2^53, towards 2^64-1), every POST repeated with the same id until "
                       "HTTP 200; 1-6 faults per scenario out of: SIGKILL idle / the moment an acknowledgement arrives / a scripted number of microseconds after a request was "
                       "written / during a concurrent round, answer dropped on the client side, forced /snapshot (idle or during a round), SIGSTOP-SIGCONT (idle or during a "
                       "round), RI = answer dropped + SIGKILL at that moment + restart WITHOUT waiting for the raft Barrier + the same body repeated every 200 us (D14); "
